@@ -124,6 +124,7 @@ class Ctx:
         self.solver_time = 0.0
         self.notes = []
         self.fresh = 0
+        self.sym_pi = False      # pi is kept symbolic once a real input has been declared (or the harness asks for it)
 
     # ------------------------------------------------------------------ context management
     def __enter__(self):
@@ -142,6 +143,7 @@ class Ctx:
         """declare a real input.  angle_denom=D makes it usable inside cos/sin/exp as multiples of name/D."""
         if not self.symbolic:
             return float(self.concrete[name])
+        self.sym_pi = True
         if name in self.inputs:
             return self.inputs[name]
         p = Poly.angle(name, angle_denom) if angle_denom else Poly.new_real(name)
